@@ -368,7 +368,7 @@ func c10R3(c *Ctx) {
 	}
 	finishers := map[string]bool{"transport.(*Server).finishHandshake": true, "transport.(*Client).clientHandshakeLocked": true}
 	for _, f := range fields {
-		for _, w := range P.FieldWrites(f) {
+		for _, w := range P.HoistWrites(P.FieldWrites(f), func(fn *ssa.Function) bool { return finishers[FuncName(fn)] }) {
 			c.Check(finishers[FuncName(w.Fn)], "C10.R3", "write:SessionState."+f.Name()+"@"+FuncName(w.Fn), P.InstrPos(w.Instr), "written by a handshake finisher",
 				"SessionState."+f.Name()+" is written outside the handshake finishers: the key and the handle would no longer be published together, and a datagram that opens under an early key reaches a nil handle")
 		}
@@ -460,19 +460,44 @@ func c11R5(c *Ctx) {
 			if !ok || !call.Call.IsInvoke() {
 				return
 			}
-			// sources of the receiver through phis
+			// sources of the receiver through phis (and through the results of local helpers)
 			seen := map[ssa.Value]bool{}
 			var risky []*ssa.MakeInterface
-			var walk func(v ssa.Value, d int)
-			walk = func(v ssa.Value, d int) {
-				if v == nil || d > 6 || seen[v] {
+			mfs := map[*ssa.Function]*MustFacts{}
+			mfOf := func(f *ssa.Function) *MustFacts {
+				if mfs[f] == nil {
+					mfs[f] = ComputeMustFacts(f)
+				}
+				return mfs[f]
+			}
+			var walk func(in *ssa.Function, v ssa.Value, d int)
+			walk = func(in *ssa.Function, v ssa.Value, d int) {
+				if v == nil || d > 8 || seen[v] {
 					return
 				}
 				seen[v] = true
 				switch x := v.(type) {
 				case *ssa.Phi:
 					for _, e := range x.Edges {
-						walk(e, d+1)
+						walk(in, e, d+1)
+					}
+				case *ssa.UnOp:
+					// a local variable of interface type: every value stored to it
+					if a, ok := x.X.(*ssa.Alloc); ok && x.Op == token.MUL && a.Referrers() != nil {
+						for _, r := range *a.Referrers() {
+							if st, ok := r.(*ssa.Store); ok && st.Addr == ssa.Value(a) {
+								walk(in, st.Val, d+1)
+							}
+						}
+					}
+				case *ssa.Call:
+					// an interface handed back by a helper of this package
+					if g := staticCallee(&x.Call); g != nil && InModule(g) && g.Pkg == in.Pkg && len(g.Blocks) > 0 && g.Signature.Results().Len() == 1 {
+						for _, b := range g.Blocks {
+							if r, ok := b.Instrs[len(b.Instrs)-1].(*ssa.Return); ok && len(r.Results) == 1 {
+								walk(g, r.Results[0], d+1)
+							}
+						}
 					}
 				case *ssa.MakeInterface:
 					if _, isPtr := x.X.Type().Underlying().(*types.Pointer); !isPtr {
@@ -482,20 +507,18 @@ func c11R5(c *Ctx) {
 					if src == nil || k != 0 || errorResultIndex(src.Call.Signature()) < 0 {
 						return
 					}
-					if mf == nil {
-						mf = ComputeMustFacts(fn)
-					}
+					m := mfOf(in)
 					ev := errResultOf(src)
-					if ev != nil && mf.NilAt(x, ev) == isNil {
+					if ev != nil && m.NilAt(x, ev) == isNil {
 						return
 					}
-					if mf.NilAt(x, x.X) == nonNil {
+					if m.NilAt(x, x.X) == nonNil {
 						return
 					}
 					risky = append(risky, x)
 				}
 			}
-			walk(call.Call.Value, 0)
+			walk(fn, call.Call.Value, 0)
 			if len(risky) == 0 {
 				return
 			}
@@ -521,7 +544,7 @@ func c11R5(c *Ctx) {
 					}
 				}
 				src, _ := fromCall(mi.X)
-				if ev := errResultOf(src); ev != nil && mf.NilAt(call, ev) == isNil {
+				if ev := errResultOf(src); ev != nil && src.Parent() == fn && mf.NilAt(call, ev) == isNil {
 					guarded = true
 				}
 				cons := fmt.Sprintf("%s#invoke:%s<-%s", FuncName(fn), call.Call.Method.Name(), shortCallee(&src.Call))
